@@ -25,6 +25,7 @@ import (
 	"fmt"
 	"math/big"
 	"math/rand"
+	"net"
 	nethttp "net/http"
 	"net/http/httptest"
 	"net/url"
@@ -161,6 +162,7 @@ type c15Op struct {
 	JWT      *string `json:"jwt"`               // nil: no jwt parameter
 	PKey     string  `json:"pkey,omitempty"`    // spelling of the parameter name (keys are lower-cased by the parser)
 	NoParams bool    `json:"noparams,omitempty"` // request without Params at all
+	Ev       int     `json:"ev,omitempty"`       // event of the announce (0 none 1 started 2 stopped 3 completed): the verdict must not depend on it
 	Note     string  `json:"note,omitempty"`
 }
 
@@ -450,7 +452,10 @@ func c15Exec(o *Out, kind string, in *c15In) {
 				}()
 				var err error
 				if op.Op == "announce" {
-					req := &bittorrent.AnnounceRequest{InfoHash: bittorrent.InfoHashFromBytes(unhx(op.IH)), Params: params}
+					req := &bittorrent.AnnounceRequest{InfoHash: bittorrent.InfoHashFromBytes(unhx(op.IH)), Params: params,
+						Event: []bittorrent.Event{bittorrent.None, bittorrent.Started, bittorrent.Stopped, bittorrent.Completed}[op.Ev&3], EventProvided: op.Ev&3 != 0,
+						Left: uint64(op.Ev & 1), Peer: bittorrent.Peer{ID: bittorrent.PeerIDFromBytes([]byte("-VF0001-c15c15c15c15")), Port: 6881,
+							IP: bittorrent.IP{IP: net.IP{192, 0, 2, 15}, AddressFamily: bittorrent.IPv4}}}
 					_, err = h.HandleAnnounce(context.Background(), req, &bittorrent.AnnounceResponse{})
 				} else {
 					req := &bittorrent.ScrapeRequest{InfoHashes: []bittorrent.InfoHash{bittorrent.InfoHashFromBytes(unhx(op.IH))}, Params: params}
@@ -735,7 +740,7 @@ func c15RefreshOp(ring []c15Pub, ents []c15KV, noKidIn int) c15Op {
 
 func (s *c15Scn) in(note string) *c15In {
 	first := c15RefreshOp(s.ring.pub, s.ents, s.noKidIn)
-	req := c15Op{Op: "announce", IH: hx(s.ih), JWT: s.token(), PKey: s.pkey, NoParams: s.noParams, Note: note}
+	req := c15Op{Op: "announce", IH: hx(s.ih), JWT: s.token(), PKey: s.pkey, NoParams: s.noParams, Note: note, Ev: s.rng.Intn(4)}
 	if s.scrape {
 		req.Op = "scrape"
 	}
@@ -1243,7 +1248,18 @@ func c15Stream(o *Out, rng *rand.Rand, n int) {
 		for _, m := range muts {
 			s := c15Base(rng, ring, variant)
 			m.f(s)
-			c15Exec(o, m.name, s.in(m.name))
+			in := s.in(m.name)
+			if variant == 0 {
+				// ... under every announce event: whether a token admits a request does not depend on what the request announces
+				for ev := 0; ev < 4; ev++ {
+					in2 := *in
+					in2.Ops = append([]c15Op{}, in.Ops...)
+					in2.Ops[len(in2.Ops)-1].Ev = ev
+					c15Exec(o, m.name, &in2)
+				}
+				continue
+			}
+			c15Exec(o, m.name, in)
 		}
 	}
 	// start-up with an endpoint that does not deliver a JWK set: no hook
